@@ -1,4 +1,4 @@
-import Lemmas.Sched
+import Lemmas.SchedTerm
 /-!
 # C05 — The segment scheduler is safe and live under every ordering of events
 
@@ -10,11 +10,13 @@ Everything is quantified over **all** configurations `c` (any number of stages, 
 only the last stage may be a mapper stage), **all** sets of initial files, and **all** reachable states, i.e. all
 orders in which the in-flight commands answer and all behaviours of the ramp-up clock (`Reachable`).
 
-`fix : Patch` says which of the proposed patches are applied; `Patch.none` is the code as it is.  The theorems
-hold for the PATCHED scheduler (`fix.shadow` = patch of `markShadowedUnits`, `fix.deps` = patch of
-`dependenciesCompleted`); for the code as it is every one of them is FALSE, and the kernel-checked `example`s at
-the end are the counterexamples (F15, F19, F20, F21 of DESIGN §9; each was replayed on the real code by
-`harness/cmd/vh_c05`).
+`fix : Patch` says which of the three scheduler fixes the modelled code contains: `fix.deps` = d60dce44
+(`dependenciesCompleted`), `fix.shadow` = 9da4cc23 (`markShadowedUnits`), `fix.stageIdx` = 38ce9883 (stage index of
+the tier-2 request).  All three are committed: `Patch.head = Patch.all` is the repository at HEAD and satisfies
+the hypotheses `fix.shadow = true`, `fix.deps = true` of the theorems.  For the code BEFORE these fixes
+(`Patch.before`, `Patch.none`) every one of the theorems is FALSE: the kernel-checked `example`s at the end are the
+counterexamples (F15, F19, F20, F21 of DESIGN §9; each was replayed on the real code of that time by
+`harness/cmd/vh_c05`, and is replayed on HEAD at every run as a regression case).
 -/
 namespace SV.C05
 open SV SV.Stg SV.Stg.Stages SV.Sch
@@ -105,31 +107,141 @@ theorem merge_result_completes (hc : c.OK) (hf : fix.shadow = true) (h : Reachab
     (step st idx elapsed).stages.getState u.seg u.stage = .completed :=
   step_merge_completes (reachable_good hc hf h) hend hcmd hfiles
 
-/-! ## the code as it is violates every one of these properties: kernel-checked counterexamples
+/-! ## the end state is the right one -/
 
-`Patch.head` is the code at HEAD (`Patch.none` = before the stage-index fix 38ce9883).  Each witness was found by
-the model's explorer and replayed on the real `Scheduler.Update` by the harness (same states after every
-message). -/
+/-- **final_state_complete.**  When the scheduler quits without error (`quitNil`), the work is done: every store
+stage is complete up to its last segment (`allStoresCompleted`), both completion flags are set, and when a file
+walker streams the output, it has seen the output file of every segment of its range. -/
+theorem final_state_complete (hc : c.OK) (hf : fix.shadow = true) (h : Reachable c fix files st)
+    (hend : st.ended = some .quitNil) :
+    st.stages.allStoresCompleted = true ∧ st.outDone = true ∧ st.storesDone = true ∧
+    ∀ w, st.walker = some w → ∀ i, w.seg.firstIndex ≤ i → i ≤ w.seg.lastIndex →
+      ∃ r, w.seg.range? i = some r ∧ st.files.hasOutput r.start r.stop = true := by
+  have hF := reachable_liveF hc hf h
+  have hW := reachable_liveW hc hf h
+  obtain ⟨ho, hs, ha⟩ := hF.endNil hend
+  refine ⟨ha, ho, hs, ?_⟩
+  intro w hw i h1 h2
+  have hd := hW.doneW ho w hw
+  simp only [Walker.isDone, decide_eq_true_eq] at hd
+  exact hW.outs w hw i h1 (by omega)
+
+/-! ## progress -/
+
+/-- **progress_partial.**  The control part of `progress`: in a reachable state that has not ended and in which
+NOTHING is in flight (no command, no job, no merge, no timer), the output stream is complete and the stores are
+the only thing missing: `storesDone` is false (or the output is an index module without walker whose last stage is
+not complete).  In other words: the walker never stalls, the two completion flags always lead to the shutdown,
+and a scheduler can only ever be stuck INSIDE `Stages` (NextJob / CmdTryMerge find nothing to do although a store
+is incomplete).
+
+MISSING CASE for the full `progress`: that last situation is impossible for `Stages` at HEAD — it is exactly
+what F19/F20 produced on the code before the fixes (`example`s below).  The candidate invariants for it (a Scheduled unit
+has its job in flight, a Merging unit its merge, a working worker its job; a Shadowed unit has a
+Pending/Scheduled/Shadowed unit above it; no stage is mergeable at rest; `NextJob` finds nothing only while a
+`scheduleNextJob`, timer or job is in flight; the units below `segmentCompleted` are complete) are checked by the
+model's explorer (`EXPLORE … v=1`, class prefix `inv/`) on every reachable state of every explored
+configuration: no violation with the patches on. -/
+theorem progress_partial (hc : c.OK) (hf : fix.shadow = true) (h : Reachable c fix files st)
+    (hend : st.ended = none) (hidle : st.inFlight = []) :
+    st.outDone = true ∧
+    (st.storesDone = false ∨ (st.walker = none ∧ st.stages.outIsIndex = true)) := by
+  have hF := reachable_liveF hc hf h
+  have hW := reachable_liveW hc hf h
+  have ho : st.outDone = true := by
+    cases hwk : st.walker with
+    | none => exact hW.noWalker hwk
+    | some w =>
+      cases hod : st.outDone with
+      | true => rfl
+      | false =>
+        exfalso
+        cases hwork : w.working with
+        | true =>
+          rcases hW.walkA w hwk hod hwork with ⟨seg, hm⟩ | hm <;> rw [hidle] at hm <;> cases hm
+        | false =>
+          have hm := hW.walkB w hwk hod hwork
+          rw [hidle] at hm; cases hm
+  refine ⟨ho, ?_⟩
+  cases hsd : st.storesDone with
+  | false => exact Or.inl rfl
+  | true =>
+    right
+    cases hwk : st.walker with
+    | some w =>
+      have hm := hF.both ho hsd hend (Or.inl (by rw [hwk]; rfl))
+      rw [hidle] at hm; cases hm
+    | none =>
+      refine ⟨rfl, ?_⟩
+      cases hx : st.stages.outIsIndex with
+      | true => rfl
+      | false =>
+        have hm := hF.both ho hsd hend (Or.inr hx)
+        rw [hidle] at hm; cases hm
+
+/-! ## termination -/
+
+/-- **terminates_partial.**  From every reachable state, the relation "one step that executes a command of the bag
+and is not a POLL" (`WorkStep`) is well-founded: there is no infinite sequence of such steps.  A poll (`polls`) is
+a step that asks again later: the walker looks for an output file that is not there yet, or `scheduleNextJob`
+finds every worker busy/waiting during the ramp-up delay and arms a timer.
+(Measure, lexicographic: how far the units of the matrix are from Completed — every job handed out, every job
+result, every finished merge moves a unit forward and nothing ever moves one back —, then the segments the walker
+still has to see, then the weight of the commands in flight.)
+
+MISSING for the full `terminates` (every fair run reaches `quitNil`): (1) the full `progress` (see
+`progress_partial`: its Stages-level core case), (2) fairness of the environment — the ramp-up delay elapses and
+a polled file is eventually there, which is again `progress` of the jobs that write it.  With `progress_partial`,
+`final_state_complete` and this theorem: a run can only go on for ever by polling, and can only stop early inside
+`Stages`. -/
+theorem terminates_partial (hc : c.OK) (hf : fix.shadow = true) (h : Reachable c fix files st) :
+    Acc (WorkStep c fix files) st := by
+  obtain ⟨B, n, hb⟩ := bnd_exists st.stages
+  exact acc_workStep hc hf B n _ st rfl h hb
+
+/-- the same as a statement about runs: in every infinite sequence of steps from a reachable state there is a
+step at which the scheduler has ended, or that executes nothing (no such command in the bag), or that is a poll
+(applied to the tails of the run: infinitely many). -/
+theorem no_infinite_work (hc : c.OK) (hf : fix.shadow = true) (run : Nat → State) (idx : Nat → Nat) (el : Nat → Bool)
+    (h0 : Reachable c fix files (run 0)) (hstep : ∀ k, run (k + 1) = step (run k) (idx k) (el k)) :
+    ∃ k, (run k).ended ≠ none ∨ (run k).bag.length ≤ idx k ∨ polls (run k) (idx k) (el k) = true := by
+  have hacc := terminates_partial hc hf h0
+  generalize hst : run 0 = st0 at hacc
+  induction hacc generalizing run idx el with
+  | intro st0 _ ih =>
+    by_cases h1 : (run 0).ended = none
+    · by_cases h2 : idx 0 < (run 0).bag.length
+      · cases h3 : polls (run 0) (idx 0) (el 0) with
+        | true => exact ⟨0, Or.inr (Or.inr h3)⟩
+        | false =>
+          have hw : WorkStep c fix files (run 1) st0 := by
+            rw [← hst]
+            exact ⟨h0, idx 0, el 0, h1, h2, h3, hstep 0⟩
+          obtain ⟨k, hk⟩ := ih (run 1) hw (fun k => run (k + 1)) (fun k => idx (k + 1)) (fun k => el (k + 1))
+            (by show Reachable c fix files (run 1); rw [hstep 0]; exact Reachable.step _ _ h0)
+            (fun k => hstep (k + 1)) rfl
+          exact ⟨k + 1, hk⟩
+      · exact ⟨0, Or.inr (Or.inl (Nat.le_of_not_lt h2))⟩
+    · exact ⟨0, Or.inl h1⟩
+
+/-! ## the code before the fixes violates every one of these properties: kernel-checked counterexamples
+
+`Patch.before` is the code before d60dce44/9da4cc23 (`Patch.none` = also before the stage-index fix 38ce9883).  Each
+witness was found by the harness or the model's explorer and replayed on the real `Scheduler.Update` of that code
+(same states after every message). -/
 section counterexamples
 open Witness
+set_option maxRecDepth 100000
 
 /-- the witness configurations satisfy the hypotheses of the theorems -/
-example : cfgF15.OK ∧ cfgF20.OK ∧ cfgTwice.OK ∧ cfgDead.OK ∧ cfgPanic.OK ∧ cfgShift.OK := by
-  refine ⟨?_, ?_, ?_, ?_, ?_, ?_⟩ <;>
-    refine ⟨by decide, ?_, ?_, ?_⟩ <;>
-    first
-      | (intro r hr; injection hr with hr; subst hr; decide)
-      | (intro r hr; cases hr)
-      | (intro i hi; have : i < 3 := by simpa [cfgF15, cfgF20, cfgTwice, cfgDead, cfgPanic, cfgShift, mkCfg] using hi
-         match i, this with
-         | 0, _ => decide
-         | 1, _ => decide
-         | 2, _ => decide)
+example : cfgF15.OK ∧ cfgF20.OK ∧ cfgTwice.OK ∧ cfgDead.OK ∧ cfgPanic.OK ∧ cfgShift.OK :=
+  ⟨ok_of_check _ (by decide), ok_of_check _ (by decide), ok_of_check _ (by decide), ok_of_check _ (by decide),
+   ok_of_check _ (by decide), ok_of_check _ (by decide)⟩
 
-/-- **F15** (`job_deps_complete` is false at HEAD).  Stores S0@5 (stage 0), S1@25 (stage 1), mapper@25, segment 10,
+/-- **F15** (`job_deps_complete` is false before d60dce44).  Stores S0@5 (stage 0), S1@25 (stage 1), mapper@25, segment 10,
 start 25, empty cache, one worker: after this schedule `NextJob` hands out (segment 2, stage 2) — the first segment of
 the mapper stage — although the unit (1, 0) is not complete and S0's snapshot at block 20 does not exist. -/
-example : (after cfgF15 Patch.head ⟨[], []⟩ schedF15).map (fun st =>
+example : (after cfgF15 Patch.before ⟨[], []⟩ schedF15).map (fun st =>
     (handedOut st 3 true, (step st 3 true).stages.previousUnitComplete ⟨2, 0⟩, st.files.hasFull 0 0 20 5)) =
     some (some ⟨2, 2⟩, false, false) := by decide
 
@@ -138,26 +250,26 @@ example : (after cfgF15 Patch.all ⟨[], []⟩ schedF15).map (fun st => handedOu
 
 /-- **F20** (`job_deps_complete`, second cause): the lower store has its snapshot at block 20 (segment 1 Completed from
 the cache) but not at block 10; (segment 1, stage 1) is handed out while (0, 0) is not complete. -/
-example : (after cfgF20 Patch.head filesF20 schedF20).map (fun st =>
+example : (after cfgF20 Patch.before filesF20 schedF20).map (fun st =>
     (handedOut st 1 true, (step st 1 true).stages.previousUnitComplete ⟨1, 0⟩, st.files.hasFull 0 0 10 0)) =
     some (some ⟨1, 1⟩, false, false) := by decide
 
-/-- **F19** (`merge_once_in_order` is false at HEAD): an interrupted earlier request left the partial of S for
+/-- **F19** (`merge_once_in_order` was false before 9da4cc23): an interrupted earlier request left the partial of S for
 segment 0; `markShadowedUnits` overwrites the Merging unit with Shadowed, the mapper job turns it into PartialPresent
 again and a second merge of the same segment is started while the first one is still in flight. -/
-example : (after cfgTwice Patch.head filesTwice schedTwice).map (fun st => st.inFlight.filterMap Cmd.mergeUnit) =
+example : (after cfgTwice Patch.before filesTwice schedTwice).map (fun st => st.bag.filterMap Cmd.mergeUnit) =
     some [⟨0, 0⟩, ⟨0, 0⟩] := by decide
 
-/-- **F19** (`no_invalid_transition` is false at HEAD): a Scheduled unit is overwritten with Shadowed while its job
+/-- **F19** (`no_invalid_transition` was false before 9da4cc23): a Scheduled unit is overwritten with Shadowed while its job
 runs; `MarkJobSuccess` then panics: invalid transition from "Shadowed" to "PartialPresent". -/
-example : (after cfgPanic Patch.head filesPanic schedPanic).map (fun st => (step st 0 true).ended) =
+example : (after cfgPanic Patch.before filesPanic schedPanic).map (fun st => (step st 0 true).ended) =
     some (some (.panic (.invalidTransition .shadowed .partialPresent))) := by decide
 
-/-- **F19** (`progress` is false at HEAD, with an EMPTY cache): three store stages and a mapper, three segments, two
+/-- **F19** (`progress` was false before 9da4cc23, with an EMPTY cache): three store stages and a mapper, three segments, two
 workers.  After this schedule nothing is in flight, the scheduler has not quit, the stores are not complete: the unit
 (segment 1, stage 1) is Shadowed for ever (its PartialPresent state was overwritten when the stage above went
 Merging). -/
-example : (after cfgDead Patch.head ⟨[], []⟩ schedDead).map (fun st =>
+example : (after cfgDead Patch.before ⟨[], []⟩ schedDead).map (fun st =>
     (st.ended, st.bag.length, st.stages.allStoresCompleted, st.stages.getState 1 1)) =
     some (none, 0, false, .shadowed) := by decide
 
@@ -166,12 +278,19 @@ while the stage is number 1 of the graph: tier2 ran the store stage and the outp
 example : (after cfgShift Patch.none ⟨[], []⟩ schedShift).map (fun st =>
     (handedOut st 0 false, (st.stages.stageAt 0).idx)) = some (some ⟨0, 0⟩, 1) := by decide
 
-/-- non-vacuity of the theorems: the states above are reachable states of the patched scheduler too -/
-example : ∃ st, after cfgDead Patch.all ⟨[], []⟩ schedDead = some st ∧ Reachable cfgDead Patch.all ⟨[], []⟩ st := by
-  unfold after
+/-- non-vacuity of the theorems: the scheduler at HEAD runs the same schedule from the same initial state (and
+ends, as the theorems say, without panic, with the merges in order) -/
+example : ∃ st, after cfgDead Patch.all ⟨[], []⟩ schedDead = some st ∧ Reachable cfgDead Patch.all ⟨[], []⟩ st ∧
+    st.stages.getState 1 1 = .completed := by
+  have hsome : ((after cfgDead Patch.all ⟨[], []⟩ schedDead).map fun st => st.stages.getState 1 1) = some .completed := by
+    decide
+  unfold after at hsome ⊢
   cases h : Sch.init cfgDead Patch.all ⟨[], []⟩ with
-  | error e => exact absurd h (by decide)
-  | ok st0 => exact ⟨_, rfl, (Reachable.init h).runSched _⟩
+  | error e => rw [h] at hsome; cases hsome
+  | ok st0 =>
+    rw [h] at hsome
+    simp only [Option.map_some, Option.some.injEq] at hsome
+    exact ⟨_, rfl, (Reachable.init h).runSched _, hsome⟩
 
 end counterexamples
 
